@@ -9,7 +9,7 @@ use rayon::prelude::*;
 use rten_text::tokenizer::{Tokenizer, TokenizerOptions};
 use vcommon::{Rng, Value, arg, arg_or, guarded, json, quiet_panics};
 
-use crate::util::{ByteChars, VocabMode, build_bpe, bytes_json, ids_json};
+use crate::util::{ByteChars, VocabMode, assign_ids, build_bpe, bytes_json, id_hl, ids_hl_json, ids_json};
 
 /// Alphabets: symbol k (1-based) of the spec is byte `ALPHAS[a][k-1]`.  ASCII
 /// only, so every symbol string is valid UTF-8; non-printable bytes exercise
@@ -26,6 +26,7 @@ struct Built {
     explicit: Result<Tokenizer, String>,
     derived: Result<Tokenizer, String>,
     xvocab: Value,
+    scheme: String,
 }
 
 fn sym_bytes(alpha: &[u8; 3], piece: &Value) -> Vec<u8> {
@@ -45,33 +46,24 @@ fn build(bc: &ByteChars, table: &Value, rng: &mut Rng) -> Built {
         .iter()
         .map(|p| (sym_bytes(&alpha, &p[0]), sym_bytes(&alpha, &p[1])))
         .collect();
-    // explicit vocabulary: a seeded injective id assignment
-    let mut pool: Vec<u32> = (0..600u32).map(|i| i * 7 + 3).collect();
-    rng.shuffle(&mut pool);
-    let mut byte_ids = [0u32; 256];
-    for b in 0..256 {
-        byte_ids[b] = pool[b];
-    }
+    // explicit vocabulary: a seeded injective id assignment over the whole u32 id space
+    let plan = assign_ids(rng, &merges, &alpha, &[], false);
+    let byte_ids = plan.byte_ids;
+    let product_ids = plan.product_ids.clone();
     let mut prod_id: HashMap<Vec<u8>, u32> = HashMap::new();
-    let mut product_ids = Vec::new();
-    let mut next = 256;
-    for (a, b) in &merges {
+    for ((a, b), id) in merges.iter().zip(&product_ids) {
         let mut p = a.clone();
         p.extend_from_slice(b);
-        let id = *prod_id.entry(p).or_insert_with(|| {
-            next += 1;
-            pool[next - 1]
-        });
-        product_ids.push(id);
+        prod_id.insert(p, *id);
     }
     let mut xv = Vec::new();
     for s in alpha {
-        xv.push(json!([[s], byte_ids[s as usize]]));
+        xv.push(json!([[s], id_hl(byte_ids[s as usize])]));
     }
     let mut prods: Vec<_> = prod_id.iter().collect();
     prods.sort();
     for (p, id) in prods {
-        xv.push(json!([bytes_json(p), id]));
+        xv.push(json!([bytes_json(p), id_hl(*id)]));
     }
     let explicit = build_bpe(
         bc,
@@ -92,11 +84,12 @@ fn build(bc: &ByteChars, table: &Value, rng: &mut Rng) -> Built {
         explicit,
         derived,
         xvocab: Value::Array(xv),
+        scheme: plan.scheme,
     }
 }
 
 /// Encode and report (outcome, ids, vocabulary bytes of each id).
-fn run(bc: &ByteChars, tok: &Result<Tokenizer, String>, text: &str) -> (String, Value, Value) {
+fn run(bc: &ByteChars, tok: &Result<Tokenizer, String>, text: &str, hl: bool) -> (String, Value, Value) {
     let tok = match tok {
         Ok(t) => t,
         Err(_) => return ("build_error".into(), json!([]), json!([])),
@@ -112,7 +105,7 @@ fn run(bc: &ByteChars, tok: &Result<Tokenizer, String>, text: &str) -> (String, 
                     None => json!([-1]),
                 })
                 .collect();
-            ("ok".into(), ids_json(&ids), Value::Array(strs))
+            ("ok".into(), if hl { ids_hl_json(&ids) } else { ids_json(&ids) }, Value::Array(strs))
         }
     }
 }
@@ -166,11 +159,11 @@ pub fn main_merge() {
                         let c = &cases[n];
                         let input = sym_bytes(&b.alpha, &c["s"]);
                         let text = String::from_utf8(input.clone()).expect("ascii");
-                        let (xo, xids, xstrs) = run(&bc, &b.explicit, &text);
-                        let (d_o, dids, dstrs) = run(&bc, &b.derived, &text);
+                        let (xo, xids, xstrs) = run(&bc, &b.explicit, &text, true);
+                        let (d_o, dids, dstrs) = run(&bc, &b.derived, &text, false);
                         json!({
                             "ev": "case", "n": n, "seq": n + 1, "m": c["m"], "s": c["s"], "one": c["one"], "all": c["all"],
-                            "alpha": bytes_json(&b.alpha), "text": bytes_json(&input), "xvocab": b.xvocab,
+                            "alpha": bytes_json(&b.alpha), "text": bytes_json(&input), "xvocab": b.xvocab, "idscheme": b.scheme,
                             "xout": xo, "xids": xids, "xstrs": xstrs,
                             "dout": d_o, "dids": dids, "dstrs": dstrs,
                         })
